@@ -1,0 +1,27 @@
+//go:build verif
+
+package plonk
+
+// Exported wrappers around unexported methods, compiled only with the `verif` build tag.
+
+import (
+	gl "github.com/wormhole-foundation/example-near-light-client/goldilocks"
+	"github.com/wormhole-foundation/example-near-light-client/plonk/gates"
+	"github.com/wormhole-foundation/example-near-light-client/variables"
+)
+
+func (p *PlonkChip) VerifExpPowerOf2Extension(x gl.QuadraticExtensionVariable) gl.QuadraticExtensionVariable {
+	return p.expPowerOf2Extension(x)
+}
+
+func (p *PlonkChip) VerifEvalL0(x gl.QuadraticExtensionVariable, xPowN gl.QuadraticExtensionVariable) gl.QuadraticExtensionVariable {
+	return p.evalL0(x, xPowN)
+}
+
+func (p *PlonkChip) VerifCheckPartialProducts(numerators []gl.QuadraticExtensionVariable, denominators []gl.QuadraticExtensionVariable, challengeNum uint64, openings variables.OpeningSet) []gl.QuadraticExtensionVariable {
+	return p.checkPartialProducts(numerators, denominators, challengeNum, openings)
+}
+
+func (p *PlonkChip) VerifEvalVanishingPoly(vars gates.EvaluationVars, proofChallenges variables.ProofChallenges, openings variables.OpeningSet, zetaPowN gl.QuadraticExtensionVariable) []gl.QuadraticExtensionVariable {
+	return p.evalVanishingPoly(vars, proofChallenges, openings, zetaPowN)
+}
